@@ -141,6 +141,10 @@ def build_harness(race=False, tags="verif"):
         cmd += ["-tags", tags]
     if race:
         cmd += ["-race"]
+    if os.environ.get("VERIF_COVERDIR"):
+        # coverage survey of the library under the drivers (tools/libcover.sh): every process that runs this binary writes its counters to GOCOVERDIR
+        cmd += ["-cover", "-coverpkg=github.com/thomasjungblut/go-sstables/..."]
+        os.environ["GOCOVERDIR"] = os.environ["VERIF_COVERDIR"]
     cmd += ["-o", out, "./cmd/vdrv"]
     t0 = time.time()
     p = subprocess.run(cmd, cwd=src, env=go_env(), stdout=subprocess.PIPE, stderr=subprocess.STDOUT, text=True)
